@@ -726,6 +726,63 @@ func TestIdenticalTexts(t *testing.T) {
 	evid.Exhaustive("text (unparsable, check-failing, missing callee, valid) x number of copies x repeated loads", n)
 }
 
+// TestFromFiles: a set read from a directory is the set that was written there: every script's text byte for byte
+// (blank lines and indentation at its start, blanks at its end, a script of nothing but line ends), and loading it
+// gives what loading the same texts directly gives - verdicts, error texts, positions.
+func TestFromFiles(t *testing.T) {
+	sets := []map[string]string{
+		{"a.p": "\n\nuse(\"b.p\")\n", "b.p": "add_key(b, 1)"},
+		{"a.p": "   use(\"b.p\")", "b.p": "\n\n"},
+		{"a.p": "\n\n  use(\"c.p\")\n\n", "c.p": "\t\n  nosuch()\n"},
+		{"a.p": "\r\n\r\nx = = 1\r\n", "b.p": " \n use(\"a.p\")"},
+		{"a.p": "# head\n\nuse(\"a.p\")  \n\n", "b.ppl": "\n \t\n", "c.p": "\n\n\nuse(\"b.ppl\")\nuse(\"missing.p\")"},
+		{"a.p": "x = \"\"\"\n text \n\"\"\"  \n\n", "b.p": "\n"},
+	}
+	n := 0
+	for si, set := range sets {
+		dir, err := os.MkdirTemp("", "c09files")
+		if err != nil {
+			t.Fatalf("harness: %v", err)
+		}
+		for nm, txt := range set {
+			if werr := os.WriteFile(filepath.Join(dir, nm), []byte(txt), 0o644); werr != nil {
+				t.Fatalf("harness: %v", werr)
+			}
+		}
+		got, paths, rerr := engine.ReadPlScriptFromDir(dir)
+		_ = os.RemoveAll(dir)
+		rp := map[string]any{"files": set}
+		if rerr != nil {
+			rk.Fail(t, "from-files", rp, "ReadPlScriptFromDir failed: %v", rerr)
+		}
+		if len(got) != len(set) || len(paths) != len(set) {
+			rk.Fail(t, "from-files", rp, "the directory holds %d scripts, %d were read", len(set), len(got))
+		}
+		for nm, txt := range set {
+			if got[nm] != txt {
+				rk.Fail(t, "from-files", rp, "script %s was written as %q and read as %q", nm, txt, got[nm])
+			}
+		}
+		ok1, errs1, crash1 := impl.LoadV1(got, call, check)
+		ok2, errs2, crash2 := impl.LoadV1(set, call, check)
+		if crash1 != nil || crash2 != nil {
+			rk.Fail(t, "from-files", rp, "ParseScript panicked: %v %v", crash1, crash2)
+		}
+		for nm := range set {
+			if (ok1[nm] != nil) != (ok2[nm] != nil) {
+				rk.Fail(t, "from-files", rp, "script %s: accepted=%v when read from the directory, %v when loaded from the same text", nm, ok1[nm] != nil, ok2[nm] != nil)
+			}
+			e1, e2 := errs1[nm], errs2[nm]
+			if (e1 == nil) != (e2 == nil) || (e1 != nil && e1.Error() != e2.Error()) {
+				rk.Fail(t, "from-files", rp, "script %s: error %v when read from the directory, %v when loaded from the same text", nm, e1, e2)
+			}
+		}
+		evid.Case(fmt.Sprintf("fromfiles/%d", si), true, "from-files")
+		n++
+	}
+	evid.Exhaustive("sets with blank lines, indentation and blank-only scripts read back from a directory", n)
+}
+
 func TestRelink(t *testing.T) {
 	rk.Check(t, "relink", 11, evid.Scale(400, 4000), func(t *rapid.T) {
 		n := rapid.IntRange(2, 6).Draw(t, "n")
